@@ -310,6 +310,24 @@ def rust_arms(r: Rust) -> dict[str, list[ArmPath]]:
         ap.unchecked = [s for s in steps if (s[0] == 'byte' and s[2] is False) or (s[0] == 'pop' and s[3] is False)
                         or (s[0] == 'claimpop' and s[1] is False)]
         arms.setdefault(opcode, []).append(ap)
+    # explicit `match read { Some(x) => .., None => panic!() }` is the same idiom as `.expect()`
+    for op, aps in arms.items():
+        for ap in aps:
+            keep = []
+            for a, o in ap.conds:
+                if a[0] == 'variant' and isinstance(a[1], tuple) and a[1] and a[1][0] in ('byteopt', 'popopt', 'claimopt', 'topopt') \
+                        and o == 'Some':
+                    sib = [q for q in aps if any(a2 == a and o2 != 'Some' for a2, o2 in q.conds)]
+                    if sib and all(q.end == 'diverge' for q in sib):
+                        kind = {'byteopt': 'byte', 'popopt': 'pop', 'claimopt': 'claimpop', 'topopt': 'peek'}[a[1][0]]
+                        for i, st in enumerate(ap.steps):
+                            if st[0] == kind and (kind in ('claimpop', 'peek') or st[1] == a[1][1]):
+                                ap.steps[i] = st[:-1] + (True,) if kind != 'peek' else st
+                        continue
+                keep.append((a, o))
+            ap.conds = keep
+            ap.unchecked = [st for st in ap.steps if (st[0] == 'byte' and st[2] is False) or (st[0] == 'pop' and st[3] is False)
+                            or (st[0] == 'claimpop' and st[1] is False)]
     if not exit_paths or any(p.end != 'return' for p in exit_paths):
         raise AnalysisError('execute_instructions: end of input does not lead to return')
     return arms
